@@ -10,6 +10,7 @@
 # 2 = infrastructure failure (never reported as a violation).
 import fcntl
 import glob
+import atexit
 import hashlib
 import itertools
 import json
@@ -295,6 +296,7 @@ def _metadir(tag):
     d = os.path.join(BUILD, "tlc", "%s-%d-%d" % (tag, os.getpid(), next(_tlc_seq)))
     shutil.rmtree(d, ignore_errors=True)
     os.makedirs(d, exist_ok=True)
+    atexit.register(_cleanup_dir, d)
     return d
 
 
@@ -500,6 +502,7 @@ class Check:
             else:      # a deviation that the committed file does not list is a violation, never tolerated
                 self.violations.append({"what": "unlisted deviation %s reported (%s)" % (fid, what), "replay": "-"})
         if self.violations:
+            _keep_work[0] = True
             for v in self.violations:
                 print("VIOLATION property=%s replay=%s" % (self.prop, v["replay"]))
                 log(v["what"])
@@ -613,8 +616,19 @@ def parse_args(argv=None):
     return ap.parse_args(argv)
 
 
+_keep_work = [False]       # set by Check.finish when a violation is reported: its scratch files stay for the post-mortem
+
+
+def _cleanup_dir(d):
+    if not os.environ.get("VERIF_KEEP_WORK") and not _keep_work[0]:
+        shutil.rmtree(d, ignore_errors=True)
+
+
 def workdir(tag):
+    """Scratch directory of this process for one check; removed when the process ends (VERIF_KEEP_WORK=1 keeps it;
+       what a violation needs for its replay is copied to evidence/replay by save_replay)."""
     d = os.path.join(BUILD, "work", "%s-%d" % (tag, os.getpid()))
     shutil.rmtree(d, ignore_errors=True)
     os.makedirs(d, exist_ok=True)
+    atexit.register(_cleanup_dir, d)
     return d
